@@ -261,10 +261,7 @@ func (s *Sim) run(res *Result) {
 		p := s.newRawPeer(i, &plan.Peers[i])
 		s.peers = append(s.peers, p)
 		s.links[p.plan.Name] = p.link
-		for j, op := range p.plan.Ops {
-			op := op
-			w.At(ms(op.AtMs), fmt.Sprintf("peerop:%s:%05d", p.plan.Name, j), func() { p.send(op.Pkt, "op") })
-		}
+		p.scheduleOp(0)
 	}
 	for i := range plan.Clients {
 		c := s.newClientActor(i, &plan.Clients[i])
